@@ -131,3 +131,9 @@ pub proof fn lemma_segmented_len(s: Seq<char>, rules: Seq<Seq<char>>, consumed: 
         lemma_segmented_len(s, rules.drop_last(), consumed - last.len());
     }
 }
+
+// R10 target for `"lit".to_string() + &s` (String + &String crashes the Verus front end; error-message text only)
+#[verifier::external_body]
+pub fn str_concat_lit(a: &str, b: &String) -> (r: String)
+    ensures r@ == a@ + b@,
+{ a.to_string() + b }
